@@ -234,6 +234,11 @@ impl PackedLevel0 {
     #[inline]
     unsafe fn count_unchecked(&self, dense_id: u32) -> usize {
         let start = dense_id as usize * self.record_words;
+        #[cfg(kyrodb_verif)]
+        assert!(
+            (dense_id as usize) < self.len() && start < self.data.len(),
+            "kyrodb_verif H4: count_unchecked out of bounds"
+        );
         unsafe { (*self.data.get_unchecked(start) as usize).min(self.cap) }
     }
 
@@ -258,6 +263,11 @@ impl PackedLevel0 {
     #[inline]
     unsafe fn neighbor_unchecked(&self, dense_id: u32, idx: usize) -> u32 {
         let start = dense_id as usize * self.record_words + 1;
+        #[cfg(kyrodb_verif)]
+        assert!(
+            (dense_id as usize) < self.len() && idx < self.cap && start + idx < self.data.len(),
+            "kyrodb_verif H4: neighbor_unchecked out of bounds"
+        );
         unsafe { *self.data.get_unchecked(start + idx) }
     }
 
@@ -288,6 +298,11 @@ impl PackedLevel0 {
     #[inline]
     unsafe fn vector_at_unchecked(&self, dense_id: u32) -> &[f32] {
         let start = dense_id as usize * self.record_words + self.vector_offset_words;
+        #[cfg(kyrodb_verif)]
+        assert!(
+            (dense_id as usize) < self.len() && start + self.dimension <= self.data.len(),
+            "kyrodb_verif H4: vector_at_unchecked out of bounds"
+        );
         let ptr = unsafe { self.data.as_ptr().add(start) } as *const f32;
         // Safety: callers guarantee `dense_id < len()`, and the backing storage
         // uses `u32` words whose layout is compatible with `f32`.
@@ -1637,6 +1652,11 @@ impl FlatSearchScratch {
         let idx = dense_id as usize;
         let word = idx >> 6;
         let bit = 1u64 << (idx & 63);
+        #[cfg(kyrodb_verif)]
+        assert!(
+            word < self.visited_bits.len(),
+            "kyrodb_verif H4: mark_if_unvisited_unchecked out of bounds"
+        );
         let slot = unsafe { self.visited_bits.get_unchecked_mut(word) };
         if (*slot & bit) != 0 {
             return false;
